@@ -324,6 +324,12 @@ func childExec(r *mon.Run, args []string) {
 		json.Unmarshal([]byte(args[3]), &in)
 		replay = &in
 	}
+	// everything executed by this process, for the late re-execution at the end
+	type done struct {
+		in    Input
+		first outcome
+	}
+	var history []done
 	for base := from; base < to; base += 4 {
 		var batch []Input
 		var firsts []outcome
@@ -429,6 +435,11 @@ func childExec(r *mon.Run, args []string) {
 				}
 			}
 		}
+		for k := range batch {
+			if ok[k] {
+				history = append(history, done{batch[k], firsts[k]})
+			}
+		}
 		// extend the set of parent states: commit the post-state of some deterministic inputs
 		for k, in := range batch {
 			rng := r.Rand("c01-commit", in.Idx)
@@ -455,6 +466,23 @@ func childExec(r *mon.Run, args []string) {
 					}
 				}
 			}
+		}
+	}
+	// late re-execution: every input once more, after the process has executed everything else
+	// (other parent states, other miners and accounts, contract code): the outcome may not depend on
+	// what this process happened to execute in between (process-local caches, memoised lookups)
+	for _, d := range history {
+		common.SetBlockHeight(d.in.Height)
+		var o outcome
+		var err error
+		if r.Guard("C01:executor-late", d.in, func() { o, err = execOnce(roots[d.in.Parent], d.in, castor, group) }) || err != nil {
+			continue
+		}
+		r.Count("late_reexecutions", 1)
+		if o.key() != d.first.key() {
+			_, what := classify(d.in, d.first, o)
+			r.Violation("C01:executor:outcome-depends-on-process-history", fmt.Sprintf("input %d re-executed on the same parent state after the process had executed %d other inputs: %s", d.in.Idx, len(history)-1, what),
+				map[string]interface{}{"layer": "executor-late", "input": d.in, "from": from, "to": to})
 		}
 	}
 	r.Finish(mon.Coverage{Evaluations: int64(to - from)})
@@ -485,8 +513,47 @@ func childBuild(r *mon.Run, args []string) {
 			}
 		}
 	}
+	// scenario class 1: a chain in which a miner's reward account is looked up, changed and reused
+	// (apply M_a with account X; a second apply naming X, rejected after a successful by-account
+	// lookup; M_a moves to account Y; X is used again by M_c): whatever a long-running process
+	// remembers about X from the earlier blocks must not matter — half of the replicas restart
+	// before every block
+	history := sc%3 == 1
+	if history {
+		nb = 5
+	}
 	for b := 0; b < nb; b++ {
 		in := genInput(r.Rand("c01-block", sc, b), sc*10+b, 1)
+		if history {
+			rich := env.RichAccounts
+			X, Y := rich[1+sc%2], rich[3]
+			mk := func(k int, typ byte, stake uint64, acct string) string {
+				m := types.Miner{Id: minerID(10 + k), PublicKey: minerID(10 + k), VrfPublicKey: minerID(10 + k), Type: typ, Stake: stake}
+				if acct != "" {
+					m.Account = common.FromHex(acct)
+				}
+				bb, _ := json.Marshal(m)
+				return string(bb)
+			}
+			typ := byte(sc / 3 % 2)
+			stake := []uint64{450, 2500}[typ]
+			var tpl []TxSpec
+			switch b {
+			case 0:
+				tpl = []TxSpec{{Kind: "miner-apply", Source: rich[0], Data: mk(0, typ, stake, X)}}
+			case 1:
+				tpl = []TxSpec{{Kind: "miner-apply", Source: rich[0], Data: mk(1, typ, stake, X)}}
+			case 2:
+				cb, _ := json.Marshal(types.Miner{Id: minerID(10), Account: common.FromHex(Y)})
+				tpl = []TxSpec{{Kind: "miner-change", Source: X, Data: string(cb)}}
+			case 3:
+				tpl = []TxSpec{{Kind: "miner-apply", Source: rich[0], Data: mk(2, typ, stake, X)}}
+			case 4:
+				tpl = []TxSpec{{Kind: "miner-apply", Source: rich[0], Data: mk(3, typ, stake, Y)}}
+			}
+			in.Txs = append(tpl, in.Txs...)
+			r.Count("history_scenario_blocks", 1)
+		}
 		if slow && b == 0 {
 			// the contract creation of the largest source address is executed first (transactions are
 			// sorted by source); the others are left over when the budget is exhausted
@@ -545,9 +612,18 @@ func childVerify(r *mon.Run, args []string) {
 	b, _ := ioutil.ReadFile(args[1])
 	var sh shipped
 	json.Unmarshal(b, &sh)
+	from, to := 0, len(sh.Blocks)
+	if len(args) >= 4 { // a replica that is restarted: this process verifies blocks [from, to) only
+		from, _ = strconv.Atoi(args[2])
+		to, _ = strconv.Atoi(args[3])
+		r.Count("replica_restarts", 1)
+	}
 	env.BootCore(env.Forks{}, nil)
 	chain := core.GetBlockChain()
 	for i, hx := range sh.Blocks {
+		if i < from || i >= to {
+			continue
+		}
 		raw, _ := hex.DecodeString(hx)
 		blk, err := types.UnMarshalBlock(raw)
 		if err != nil {
@@ -650,8 +726,22 @@ func main() {
 		for p := 0; p < replicas; p++ {
 			vdir := filepath.Join(wd, fmt.Sprintf("v-%d-%d", sc, p))
 			env.CopyDir(gdir, vdir)
-			res := r.RunChild(mon.ChildSpec{Label: "verify", Dir: vdir, Args: []string{"verify", strconv.Itoa(sc), out}, Timeout: 5 * time.Minute})
-			r.Absorb(res, "C01:replica")
+			if p%2 == 1 {
+				// a replica that restarts before every block (fresh process over the same store)
+				nb := 1 + sc%3
+				if sc%3 == 1 {
+					nb = 5
+				}
+				for b := 0; b < nb; b++ {
+					res := r.RunChild(mon.ChildSpec{Label: "verify-restarting", Dir: vdir, Args: []string{"verify", strconv.Itoa(sc), out, strconv.Itoa(b), strconv.Itoa(b + 1)}, Timeout: 5 * time.Minute})
+					if !r.Absorb(res, "C01:replica") || res.Exit != 0 {
+						break
+					}
+				}
+			} else {
+				res := r.RunChild(mon.ChildSpec{Label: "verify", Dir: vdir, Args: []string{"verify", strconv.Itoa(sc), out}, Timeout: 5 * time.Minute})
+				r.Absorb(res, "C01:replica")
+			}
 			os.RemoveAll(vdir)
 		}
 	})
